@@ -380,6 +380,22 @@ def proj (k : Nat) : List WOp → List Op
     | some us => .adv us :: proj k xs
     | none => if k' = k then op :: proj k xs else proj k xs
 
+/-! ## Two overlapping calls on one lifecycle (search axis: OS threads are outside the property's quantifier)
+
+Protocol line `race j <opA> | <opB>`: thread A makes call `a` and is held back just before its `j`-th acquisition of the
+lock (0 = before it takes the lock at all); meanwhile thread B makes call `b` until it returns or has to wait for the
+lock; then A continues.  Every mutator does all its work inside ONE `with self._lock` region (fact regenerated by E3,
+`lockedMethodsAtomic`), so the two calls take effect one after the other: B first exactly when A was stopped before its
+first acquisition, otherwise (A already holds the lock, or never asks for it `j + 1` times) A first. -/
+
+/-- does B's call take effect before A's? -/
+def bFirst (j : Nat) (pathA : List LockEv) : Bool :=
+  j == 0 && pathA.head? == some .acq
+
+/-- the sequential history two overlapping calls amount to -/
+def raceOps (cfg : Cfg) (s : State) (j : Nat) (a b : Op) : List Op :=
+  if bFirst j (step cfg s a).lock then [b, a] else [a, b]
+
 /-! ### support for the source translation (`Operon/Gen/TelomereTranslated.lean`, generated) -/
 
 /-- Python `x or d` on an optional int: `None` and `0` are falsy -/
@@ -546,6 +562,54 @@ def genTable : Table := Gen.TelomereLocks.methods.map methodOf
 def Table.indexOf (T : Table) (name : String) : Option Nat :=
   let i := T.findIdx (fun m => m.name == name)
   if i < T.length then some i else none
+
+/-! ### state touched while the lock is not held (E3 fact `unlocked`) -/
+
+def Item.isRegion : Item → Bool
+  | .region _ => true
+  | .call _ => false
+
+def Method.takesLock (x : Method) : Bool := x.body.any Item.isRegion
+
+/-- what the self-methods called OUTSIDE every region of a body touch while unlocked -/
+def exposedItems (callE : Nat → List String) : List Item → List String
+  | [] => []
+  | .call c :: rest => callE c ++ exposedItems callE rest
+  | .region _ :: rest => exposedItems callE rest
+
+/-- private state a call of method `m` touches while it does NOT hold the lock: its own mentions outside its regions
+    (`U`, extracted) and, recursively, those of the self-methods it calls outside a region.  Anything unknown counts as
+    touched (fail closed). -/
+def exposed (T : Table) (U : List (String × List String)) : Nat → Nat → List String
+  | 0, _ => ["<call depth>"]
+  | fuel + 1, m =>
+    match T[m]? with
+    | none => ["<unknown method>"]
+    | some x => (U.lookup x.name).getD ["<no fact>"] ++ exposedItems (exposed T U fuel) x.body
+
+/-- a public method that takes the lock does ALL its work on the state inside ONE region: it has exactly one top-level
+    region and touches no private state outside it (so two overlapping calls of such methods take effect one after
+    the other).  Methods that never take the lock (the read-only accessors, the constructor) are not constrained. -/
+def atomicMethod (T : Table) (U : List (String × List String)) (m : Nat) : Bool :=
+  match T[m]? with
+  | none => false
+  | some x =>
+    !(x.pub && x.takesLock) || ((exposed T U T.length m).isEmpty && (x.body.filter Item.isRegion).length == 1)
+
+def lockedMethodsAtomic (T : Table) (U : List (String × List String)) : Bool :=
+  (List.range T.length).all (atomicMethod T U)
+
+/-- the nine mutators exist, are public and take the lock -/
+def mutatorsTakeLock (T : Table) : Bool :=
+  ["start", "tick", "record_error", "heartbeat", "check_timeouts", "renew", "trigger_apoptosis", "terminate", "reset"].all
+    fun n => match T.indexOf n with
+      | some i => match T[i]? with
+        | some x => x.pub && x.takesLock
+        | none => false
+      | none => false
+
+/-- E3: state mentioned outside the lock regions, per method of the current source -/
+def genUnlocked : List (String × List String) := Gen.TelomereLocks.unlocked
 
 /-- the shape the pinned tree had: `threading.Lock()` and `tick` calling `start` inside its region -/
 def pinnedTable : Table :=
